@@ -34,11 +34,13 @@ type World struct {
 	Funcs  []*ssa.Function // every source function, closure and generic instance of the package
 	byName map[string]*ssa.Function
 
-	phiBusy   map[*ssa.Phi]bool
-	cg        *callgraph.Graph
-	Blocks    int
-	Instrs    int
-	loadNotes []string
+	phiBusy     map[*ssa.Phi]bool
+	absorbMemo  map[*ssa.Function]bool
+	callSitesOf map[*ssa.Function][]*ssa.Call
+	cg          *callgraph.Graph
+	Blocks      int
+	Instrs      int
+	loadNotes   []string
 }
 
 func repoDir() string {
@@ -96,6 +98,7 @@ func loadWorld(dir, tags, goarch string) (*World, error) {
 		return nil, fmt.Errorf("no SSA package built for root")
 	}
 	w.collectFuncs()
+	theWorld = w
 	return w, nil
 }
 
@@ -316,6 +319,15 @@ func (w *World) pathDepth(v ssa.Value, depth int) string {
 	case nil:
 		return "?nil"
 	case *ssa.Parameter:
+		// a helper extracted after the rules were confirmed: its parameters are
+		// the arguments of its single call site (see absorb.go)
+		if c := w.uniqueCallSite(x.Parent()); c != nil && d < 40 {
+			for i, p := range x.Parent().Params {
+				if p == x && i < len(c.Call.Args) {
+					return w.pathDepth(c.Call.Args[i], d+1)
+				}
+			}
+		}
 		return "p:" + x.Name()
 	case *ssa.FreeVar:
 		if b := freeVarBinding(x); b != nil {
